@@ -22,6 +22,7 @@ package hash
 //@ assigns nothing
 //@ ensures [length] len(result) == bytelen(value) + 1 && fresh(result)
 //@ ensures [count-last] result[bytelen(value)] == bytelen(value)
+//@ ensures [as-sequence] seqid(result) == rencSeq(value)
 //@ ensures [value-bytes] forall(k, 0, bytelen(value), result[k] == bebyte(value, 8 - bytelen(value) + k))
 //@ loop 1 invariant 0 <= i && i <= 7 && forall(k, 0, i, b[k] == 0) && forall(k, 0, 8, b[k] == bebyte(value, k))
 
